@@ -6,9 +6,9 @@ from __future__ import annotations
 import hashlib, json, os, pickle, sys, time
 from dataclasses import dataclass, field, asdict
 from pathlib import Path
-import vlib, drive, refgen, panel, oracle as O, cvoracle as CV
+import vlib, drive, refgen, panel, oracle as O, cvoracle as CV, ordctl
 
-ENGINE_VERSION = 3
+ENGINE_VERSION = 4
 CACHE_DIR = vlib.VERIF / '.cache'
 
 
@@ -26,6 +26,7 @@ class Cfg:
     avpm: tuple = (-1,)              # --additional-variants-per-misc
     collapse: tuple = None           # (min_nodes_to_collapse, naa_to_collapse)
     threads: int = 1
+    order_salt: int = 0              # identity-hash salt (lib/ordctl.py): set-iteration order is an explicit axis
 
     def cleavage(self):
         return O.Cleavage(self.rule, self.exception, self.misc, self.min_length, self.max_length, self.min_mw)
@@ -145,6 +146,7 @@ def execute(case: Case, keep_table=False):
     d = vlib.worker_dir() / 'case'
     d.mkdir(exist_ok=True)
     files = write_case_files(case, d)
+    ordctl.order_control(case.cfg.order_salt)       # every execution starts from the same identity-hash state
     r = drive.call_variant(d / 'out.fasta', files, refdir=ref_dir(case.ref), cleavage=case.cfg.argv(),
                            max_variants_per_node=case.cfg.mvpn, additional_variants_per_misc=case.cfg.avpm,
                            threads=case.cfg.threads)
@@ -176,7 +178,7 @@ def tree_key():
                 h.update(p.read_bytes())
         import Bio
         h.update(f'{Bio.__version__}|{sys.version}|{ENGINE_VERSION}'.encode())
-        for f in ('enginea.py', 'drive.py', 'refgen.py', 'panel.py'):
+        for f in ('enginea.py', 'drive.py', 'refgen.py', 'panel.py', 'ordctl.py'):
             h.update((vlib.VERIF / 'lib' / f).read_bytes())
         _tree_key = h.hexdigest()[:24]
     return _tree_key
